@@ -702,3 +702,17 @@ pub fn closure_of_pairs(n: usize, us: &[T], vs: &[T]) -> Vec<Vec<T>> {
     }
     conn
 }
+
+// labels serialise as opaque tokens (the term handle), so that a JSON round trip of a diagram with
+// symbolic labels is meaningful: the token that comes back is the same symbolic label
+impl serde::Serialize for Lab {
+    fn serialize<S: serde::Serializer>(&self, s: S) -> Result<S::Ok, S::Error> {
+        s.serialize_u64(self.0 as u64)
+    }
+}
+impl<'de> serde::Deserialize<'de> for Lab {
+    fn deserialize<D: serde::Deserializer<'de>>(d: D) -> Result<Self, D::Error> {
+        let v = <u64 as serde::Deserialize>::deserialize(d)?;
+        Ok(Lab(v as T))
+    }
+}
